@@ -11,6 +11,7 @@ package main
 import (
 	"encoding/json"
 	"fmt"
+	"math/big"
 	"os"
 	"runtime"
 	"sync"
@@ -88,6 +89,15 @@ func main() {
 			}
 			im, rf := implAll([]caseT{c}, run.Errorf)[0], refOf(c)
 			still := !agree(im, rf)
+			if f.Status == "fixed" {
+				// a repaired finding: its class is gone from the classification, the replay input must now lie in
+				// the domain of the theorems (and pass: StillFails is reported as a VIOLATION by tools/check.py)
+				if a, err := drv.AskAll([]string{c.line()}); err != nil {
+					run.Errorf("fixed finding %s: driver: %v", f.ID, err)
+				} else if sig := signature(c, common.Fields(a[0])); sig != "" {
+					run.Errorf("fixed finding %s: its replay input has class %q, expected in-domain", f.ID, sig)
+				}
+			}
 			run.Res.Known = append(run.Res.Known, common.KnownReplay{ID: f.ID, Status: f.Status, What: f.What, StillFails: still,
 				Detail: fmt.Sprintf("impl=%s ref=%s", im, rf)})
 		}
@@ -140,6 +150,11 @@ func main() {
 			run.Hit("class:" + sig)
 		} else {
 			run.Hit("class:in-domain")
+		}
+		if c.Kind == "repr" {
+			if v, ok := new(big.Int).SetString(c.Value, 10); ok && formerGap(c.Type, v) {
+				run.Hit("repr:former-signed-gap(F03, fixed)")
+			}
 		}
 		describe(run, c)
 		// samples: up to two of each kind/context, the program ones with some depth
